@@ -30,6 +30,12 @@ type HSPath struct {
 	Negative string `json:"negative,omitempty"`
 	// Refusal: index into the refusal replies (proxy-refusal).
 	Refusal int `json:"refusal,omitempty"`
+	// DialDelayMs: the custom dial function takes this long (ignoring the
+	// context, as a legacy NetDial does) before it hands over the connection;
+	// ProxyDelayMs: the Dialer.Proxy callback takes this long to decide.
+	// Both only make sense on the fake clock of the stall leg.
+	DialDelayMs  int `json:"dial_delay_ms,omitempty"`
+	ProxyDelayMs int `json:"proxy_delay_ms,omitempty"`
 	// Upgrade only: bytes pre-buffered in the hijacked reader, buffer sizes.
 	PreBuffered int  `json:"prebuffered,omitempty"`
 	ReadBuf     int  `json:"rbuf,omitempty"`
@@ -125,6 +131,9 @@ func dialPath(c HSPath, fault *xport.PFault) *dialOutcome {
 	d := websocket.Dialer{TLSClientConfig: &tls.Config{RootCAs: getPKI().pool}}
 	hook := func(ctx context.Context, network, addr string) (net.Conn, error) {
 		out.dialled++
+		if c.DialDelayMs > 0 {
+			time.Sleep(time.Duration(c.DialDelayMs) * time.Millisecond)
+		}
 		end, log := startPeer(spec)
 		end.Fault = fault
 		out.end, out.log = end, log
@@ -138,8 +147,13 @@ func dialPath(c HSPath, fault *xport.PFault) *dialOutcome {
 	default:
 		d.NetDialContext = hook
 	}
-	if proxyURL != nil {
-		d.Proxy = func(*http.Request) (*url.URL, error) { return proxyURL, nil }
+	if proxyURL != nil || c.ProxyDelayMs > 0 {
+		d.Proxy = func(*http.Request) (*url.URL, error) {
+			if c.ProxyDelayMs > 0 {
+				time.Sleep(time.Duration(c.ProxyDelayMs) * time.Millisecond)
+			}
+			return proxyURL, nil
+		}
 	}
 	ctx := context.Background()
 	var cancel func()
